@@ -275,6 +275,88 @@ pub fn op_threads(case: &J) -> J {
     max_overlap = max_overlap.max(active.len());
     order_sig = mix(order_sig ^ (ev.0 as u64 + 1).wrapping_mul(0x9e3779b97f4a7c15) ^ (ev.1 as u64) << 20);
   }
+  // ---- phase C: hammer: every thread calls ONE invocable with a few alternating inputs, untagged (identical
+  // inputs recur, unlike phase A where the call tag makes every input unique), no injected delays ----
+  let hammer_rounds = case.get("hammer_rounds").and_then(|v| v.as_u64()).unwrap_or(0) as usize;
+  let hammer_calls = case.get("hammer_calls").and_then(|v| v.as_u64()).unwrap_or(200) as usize;
+  let hammer_keys = case.get("hammer_keys").and_then(|v| v.as_u64()).unwrap_or(3) as usize;
+  let mut hammer_total = 0u64;
+  let mut hammer_mismatch_count = 0u64;
+  let mut hammer_targets: Vec<String> = vec![];
+  if hammer_rounds > 0 {
+    st.mode.store(MODE_OFF, Ordering::SeqCst);
+    let mut pairs: Vec<(usize, String)> = vec![];
+    for c in calls.iter() {
+      if !pairs.iter().any(|p| p.0 == c.model && p.1 == c.invocable) {
+        pairs.push((c.model, c.invocable.clone()));
+      }
+    }
+    for round in 0..hammer_rounds {
+      let pick = (mix(seed ^ 0xabcdef ^ ((round as u64) << 40)) % pairs.len() as u64) as usize;
+      let (mut pm, mut pi) = pairs[pick].clone();
+      // the first two rounds go to the invocables the case prefers (decision services: the only invocables with an evaluator of their own on top of the decisions')
+      if round < 2 {
+        if let Some(prefer) = case.get("hammer_prefer").and_then(|v| v.as_array()).filter(|a| !a.is_empty()) {
+          let p = &prefer[(mix(seed ^ round as u64 ^ 0x5151) % prefer.len() as u64) as usize];
+          pm = p.get(0).and_then(|v| v.as_u64()).unwrap_or(0) as usize;
+          pi = p.get(1).and_then(|v| v.as_str()).unwrap_or("").to_string();
+        }
+      }
+      let mut idxs: Vec<usize> = calls.iter().enumerate().filter(|(_, c)| c.model == pm && c.invocable == pi).map(|(i, _)| i).collect();
+      // distinct expected results make a swapped result visible
+      idxs.dedup_by(|a, b| expected[*a] == expected[*b]);
+      let start = (mix(seed ^ round as u64) % idxs.len() as u64) as usize;
+      idxs.rotate_left(start);
+      idxs.truncate(hammer_keys.max(2));
+      if idxs.len() < 2 {
+        continue;
+      }
+      hammer_targets.push(format!("{}:{}", pm, pi));
+      let idxs = Arc::new(idxs);
+      let barrier = Arc::new(Barrier::new(n_threads));
+      let mut hs = vec![];
+      for t in 0..n_threads {
+        let (calls, expected, evaluators, barrier, idxs) = (calls.clone(), expected.clone(), evaluators.clone(), barrier.clone(), idxs.clone());
+        hs.push(
+          std::thread::Builder::new()
+            .stack_size(8 * 1024 * 1024)
+            .spawn(move || {
+              let mut bad: Vec<J> = vec![];
+              let mut nbad = 0u64;
+              let mut x = mix(seed ^ ((t as u64 + 7) << 24) ^ round as u64);
+              barrier.wait();
+              for k in 0..hammer_calls {
+                x = mix(x.wrapping_add(k as u64));
+                let idx = idxs[(x % idxs.len() as u64) as usize];
+                let c = &calls[idx];
+                let v = evaluators[c.model].evaluate_invocable(&c.invocable, &c.input);
+                let got = vj::from_value(&v).to_string();
+                if got != expected[idx] {
+                  nbad += 1;
+                  if bad.len() < 3 {
+                    bad.push(json!({"phase": "hammer", "thread": t, "call": k, "index": idx, "invocable": c.invocable, "expected": expected[idx], "observed": got}));
+                  }
+                }
+              }
+              (bad, nbad)
+            })
+            .expect("spawn"),
+        );
+      }
+      for h in hs {
+        match h.join() {
+          Ok((b, n)) => {
+            hammer_total += hammer_calls as u64;
+            hammer_mismatch_count += n;
+            if mismatches.len() < 10 {
+              mismatches.extend(b);
+            }
+          }
+          Err(_) => thread_panics += 1,
+        }
+      }
+    }
+  }
   // ---- phase B: rendezvous: K evaluations inside the evaluator at the same time ----
   let mut rendezvous_result = json!(null);
   if rendezvous > 1 && hook {
@@ -331,7 +413,9 @@ pub fn op_threads(case: &J) -> J {
     "calls": events.len(),
     "expected_non_null": non_null,
     "mismatches": mismatches,
-    "mismatch_count": events.iter().filter(|e| !e.4).count(),
+    "mismatch_count": events.iter().filter(|e| !e.4).count() as u64 + hammer_mismatch_count,
+    "hammer_calls": hammer_total,
+    "hammer_targets": hammer_targets,
     "thread_panics": thread_panics,
     "overlapping_pairs": overlapping_pairs,
     "max_overlap_logical": max_overlap,
